@@ -233,7 +233,32 @@ def _build(case, span):
     if case.get('user_attrs') and case['cls'] != 'LK':
         c.add_attribute('scenario', 'base')           # an immutable and a mutable (list-valued) user attribute: carried over, not shared
         c.add_attribute('tags', ['a', 'b'])
+        # NESTED mutable user attributes: a shallow copy of the attribute would still share what is inside
+        c.add_attribute('meta', {'k': [1, 2], 'm': {'z': [3]}})
+        c.add_attribute('grid', [[1, 2], [3]])
+        if not case.get('obj_strict'):
+            c.notes = [{'a': [1]}, ('t', [5])]          # plain attribute assignment (allowed when the object is not strict)
     return c
+
+
+def _walk(v, seen=None):
+    """Every mutable object reachable from v through dict values / keys, list / tuple / set items and object-dtype array elements."""
+    import numpy as np
+    seen = {} if seen is None else seen
+    if id(v) in seen:
+        return seen
+    if isinstance(v, (list, dict, set, np.ndarray)):
+        seen[id(v)] = v
+    if isinstance(v, dict):
+        for x in v.values():
+            _walk(x, seen)
+    elif isinstance(v, (list, tuple, set)):
+        for x in v:
+            _walk(x, seen)
+    elif isinstance(v, np.ndarray) and v.dtype == object:
+        for x in v.tolist():
+            _walk(x, seen)
+    return seen
 
 
 def _build0(case, span):
@@ -276,7 +301,7 @@ def _snapshot(c, objmap):
     return out
 
 
-USER_ATTRS = ('scenario', 'tags')          # added by _build through add_attribute when the case asks for user attributes
+USER_ATTRS = ('scenario', 'tags', 'meta', 'grid', 'notes')          # added by _build through add_attribute when the case asks for user attributes
 PUBLIC_ATTRS = USER_ATTRS + ('strict', 'dtype', 'names', 'lags', 'leads', 'endogenous', 'exogenous', 'parameters', 'errors', 'check', 'engine', 'aliases')
 
 
@@ -436,6 +461,9 @@ def impl(case):
             v, w = getattr(c, k, None), getattr(r, k, None)
             if v is w and isinstance(v, (list, dict, set, np.ndarray)):
                 shared.append('attribute %s' % k)
+            elif set(_walk(v)) & set(_walk(w)):
+                # reachability: no mutable object reachable from the result's attribute may be reachable from the original's
+                shared.append('attribute %s (a nested object)' % k)
         if r.span is c.span:
             # an immutable span object (range, tuple, pandas Index) cannot carry state from one object to the other
             shared.append('span' if isinstance(c.span, (list, np.ndarray)) else 'immutable-span')
@@ -450,11 +478,11 @@ def impl(case):
                     if isinstance(x, list):
                         x.append('#mutated#')          # a shared cell object would carry this into the original
         for k in PUBLIC_ATTRS:
-            v = getattr(r, k, None)
-            if isinstance(v, list):
-                v.append('#mutated#')
-            elif isinstance(v, dict):
-                v['#mutated#'] = 1
+            for x in list(_walk(getattr(r, k, None)).values()):          # in-place edits at every depth of the result's attribute
+                if isinstance(x, list):
+                    x.append('#mutated#')
+                elif isinstance(x, dict):
+                    x['#mutated#'] = 1
         if isinstance(r.span, list):
             r.span.append('#mutated#')
         obs['orig_unchanged_after_mutation'] = (_snapshot(c, objmap) == before and _meta(c) == meta_before)
